@@ -147,7 +147,11 @@ fn dir_digest(dir: &str) -> BTreeMap<Vec<u8>, (bool, Vec<u8>)> {
         for e in rd.flatten() {
             let md = e.metadata().ok();
             let isdir = md.as_ref().is_some_and(std::fs::Metadata::is_dir);
-            let content = if isdir { Vec::new() } else { std::fs::read(e.path()).unwrap_or_default() };
+            let mut content = if isdir { Vec::new() } else { std::fs::read(e.path()).unwrap_or_default() };
+            // permission bits are part of what mkdirat / openat were asked for
+            use std::os::unix::fs::PermissionsExt;
+            let mode = md.as_ref().map_or(0, |m| m.permissions().mode() & 0o7777);
+            content.extend_from_slice(&mode.to_le_bytes());
             m.insert(e.file_name().as_bytes().to_vec(), (isdir, content));
         }
     }
@@ -971,9 +975,11 @@ fn run_ext_ops(dec: Dec, opts: &RunOpts, slot: u64, rounds: usize) -> RunOut {
                         let step = n.div_ceil(parts).max(1);
                         let io: Vec<IoSlice> = data.chunks(step).map(IoSlice::new).collect();
                         let guard = MsgHdrBorrow::create_send(None, &io, if nfds > 0 { Some(ControlMessageSend::ScmRights(&pass_fd)) } else { None });
-                        let raw = s.dec.chance(K::Arg, 1, 3);
-                        let e = unsafe { Sqe::new_sendmsg(fd_of(a0), &guard, 0, ud, no) };
-                        let _ = raw;
+                        // without descriptors to pass, a third of the sends use the raw-header entry
+                        let raw = nfds == 0 && s.dec.chance(K::Arg, 1, 3);
+                        let mut raw_iov: Vec<libc::iovec> = data.chunks(step).map(|c| libc::iovec { iov_base: c.as_ptr() as *mut _, iov_len: c.len() }).collect();
+                        let raw_hdr = MsgHdr { msg_name: std::ptr::null(), msg_namelen: 0, msg_iov: raw_iov.as_mut_ptr().cast(), msg_iovlen: raw_iov.len(), msg_control: std::ptr::null_mut(), msg_controllen: 0, msg_flags: 0 };
+                        let e = unsafe { if raw { Sqe::new_sendmsg_raw(fd_of(a0), std::ptr::from_ref(&raw_hdr), 0, ud, no) } else { Sqe::new_sendmsg(fd_of(a0), &guard, 0, ud, no) } };
                         let got = match submit_reap(&mut ring, vec![(ud, e)]) {
                             Ok(g) => g[&ud],
                             Err(v) => return Some(v),
